@@ -9,3 +9,5 @@ for id in "$@"; do
   ./check "$id" --tier quick 2>&1 | grep -E "VIOLATION|KNOWN-FINDING|^\[$id\]|infrastructure" | cut -c1-400
 done
 git -C /repo checkout -- . ; git -C /repo status --short | head -3
+# the generated Lean files are a function of the repository: bring them back to the restored tree
+cd /verif/harness && /venv/bin/python -c "import sys; sys.path.insert(0, '.'); import gen; gen.regen_all()" >/dev/null 2>&1
